@@ -14,8 +14,8 @@ def checkErrorObject (v : JVal) : Res ErrorObjectErr Unit :=
     | some code =>
       match code with
       | .num n =>
-        -- `is_i64() | is_u64()` then `as_i64().unwrap()`: a u64 above i64::MAX panics
-        if n > 9223372036854775807 then .panic "instruction_error_definition.rs:ensure_error_code_correct:as_i64().unwrap()"
+        -- `value.as_i64()`: a u64 above i64::MAX is not an integer error code (since /repo 0e86aa7; it panicked before)
+        if n > 9223372036854775807 then .error (.scalarFieldIsWrongType v "error_code" "integer")
         else if n == 0 then .error .errorCodeMustBeNonZero
         else
           match v.getField "message" with
